@@ -252,7 +252,7 @@ def prove(ctx, modules=None):
         ctx.oblige(f"theorem {d[2]}", d[2] not in failed and not any(k.startswith("import:") or k == "lake-build" for k in failed),
                    "; ".join(failed.get(d[2], []) or [k + ": " + v[0] for k, v in failed.items() if k.startswith("import:") or k == "lake-build"][:1]))
     for d in examples:
-        ctx.oblige(f"non-vacuity {d[2]}", d[2] not in failed and rc == 0, "; ".join(failed.get(d[2], [])))
+        ctx.oblige(f"non-vacuity {d[2]}", d[2] not in failed and not any(k.startswith("import:") or k == "lake-build" for k in failed), "; ".join(failed.get(d[2], [])))
     for k, v in failed.items():
         if k not in [d[2] for d in thms + examples]:
             ctx.oblige(f"build {k}", False, "; ".join(v)[:600])
